@@ -620,9 +620,11 @@ func (d *decoderState) ReadToken() (Token, error) {
 			return Token{}, wrapSyntacticError(d, err, pos, +1)
 		}
 		d.Names.push()
-		if !d.Flags.Get(jsonflags.AllowDuplicateNames) {
-			d.Namespaces.push()
-		}
+		// Always track a namespace per object, even if AllowDuplicateNames is set,
+		// so that the stack stays balanced when the flag differs between the
+		// begin and end of an object (e.g., a per-call option on UnmarshalDecode
+		// or MarshalEncode that fails mid-object).
+		d.Namespaces.push()
 		d.Flags.Clear(jsonflags.TagFlags) // tags only apply to current depth
 		pos += 1
 		d.prevStart, d.prevEnd = pos, pos
@@ -633,9 +635,7 @@ func (d *decoderState) ReadToken() (Token, error) {
 			return Token{}, wrapSyntacticError(d, err, pos, +1)
 		}
 		d.Names.pop()
-		if !d.Flags.Get(jsonflags.AllowDuplicateNames) {
-			d.Namespaces.pop()
-		}
+		d.Namespaces.pop()
 		pos += 1
 		d.prevStart, d.prevEnd = pos, pos
 		return EndObject, nil
